@@ -26,6 +26,8 @@ var (
 	vcCalled bool
 	// every iteration so far called the handler exactly when its event was a commit point
 	vcGood bool
+	// allocation watermark at the last accepted delivery: everything handed to the handler is at most this old
+	vcDelivered uint64
 )
 
 // ---- classification of an event as the statement of C02 has it ----
@@ -78,6 +80,7 @@ func vc_hook_loopentry_Streamer_parseEvents_1(pos Position) {
 	vcBuf = 0
 	vcCalled = false
 	vcGood = true
+	vcDelivered = 0
 }
 
 // the handler accepted tran: the boundary moves behind it, nothing is buffered, no transaction is open
@@ -88,6 +91,7 @@ func vc_hook_callback_ok_sendTransaction(tran *Transaction) {
 	vcBuf = 0
 	vcOpen = false
 	vcCalled = true
+	vcDelivered = vspec.Watermark()
 }
 
 // end of an iteration that continues the loop: advance the ghost state by the event just processed
@@ -135,7 +139,9 @@ func vc_Streamer_parseEvents_requires(s *Streamer, ctx context.Context, events <
 }
 
 func vc_Streamer_parseEvents_loop1_inv(pos Position, autocommit bool, tranEvents []*StreamEvent) bool {
-	return vspec.Owned(tranEvents) && // the buffer is never memory that existed before the call
+	return vspec.Owned(tranEvents) && // the buffer is never memory that existed before the call,
+		// C08: nor memory that was handed to the handler: it is nil or was allocated after the last delivery
+		(tranEvents == nil || vspec.BaseOf(tranEvents) > vcDelivered) &&
 		pos == vcAcc && // C04: the position to resume from is the accepted boundary
 		autocommit == !vcOpen && // C02: grouping state
 		len(tranEvents) == vcBuf && (vcOpen || vcBuf == 0) &&
